@@ -26,6 +26,24 @@ def main(argv):
             return mod.replay(replay)
         return mod.run(tier)
     except common.Infra as e:
+        # "a generated, well-formed definition does not prepare / is rejected / is not re-prepared" and "the
+        # code no longer has the shape the harness hooks into" say something about the tree under test, not
+        # about the infrastructure: on the tree the check was built against they cannot happen. The
+        # correspondence no longer checks; no failing input was established.
+        import re
+        if not replay and re.search(r"rejected by prepare|did not prepare|does not prepare|did not re-prepare|"
+                                    r"prepare failed|workflow rejected|no longer calls|out of date with", str(e)):
+            import json
+            rp = common.VERIF / "replay" / f"{prop}-{os.environ.get('VERIF_SEED', '0')}.json"
+            rp.parent.mkdir(exist_ok=True)
+            rp.write_text(json.dumps({
+                "property": prop, "kind": "unproved",
+                "no_longer_checks": [{"kind": "correspondence-setup",
+                                      "what": "a definition the harness generates as well-formed is not accepted / "
+                                              "not handled by the tree under test as by the code the check was built against",
+                                      "detail": str(e)}]}, indent=1))
+            print(f"VIOLATION property={prop} replay={rp} no-failing-input-found")
+            return 1
         print(f"INFRA: {e}")
         return 2
     except Exception as e:
